@@ -10,7 +10,7 @@ CHECKS = {
   "text": "TLC explores the KmerIter specification over every string of the 5 classes {A,C,G,T/U,other} up to length 7 (quick) / 9 (thorough) for k=1..4 and checks in every state that the output is exactly the clean windows of the consumed prefix, plus the register invariant; the same run loads the real KmerGenerator's output for every one of those inputs and requires equality (B1). Random byte strings with k=1..31 and every byte value 4..255 are validated call-by-call (returned pair as 32 digits, pos, len, registers) against the same specification (B2).",
   "ref": "DESIGN.md 5.2, 6 C01",
   "note": TB + "k=5..31 are covered by validated traces, not exhaustively.",
-  "technique": "TLC exhaustive model checking with implementation table (B1) + TLC trace validation (B2)"},,
+  "technique": "TLC exhaustive model checking with implementation table (B1) + TLC trace validation (B2)"},
  "C02": {
   "text": "TLC walks the tree of all base-4 digit strings up to length 8 (quick) / 10 (thorough) - every code x<4^k for every k in range - checking that the loop-shaped rev_comp and numeric_to_kmer of the specification equal the declarative RC/Decode, involution, text reverse complement and Encode(Decode(x))=x, and that the real rev_comp / numeric_to_kmer agree on every code (table loaded into TLC). Strand symmetry: MCKmerIter checks PairRC, StrandSym and the canonical multiset on the model and ImplStrandSym on the real iterator's table for all class strings up to length 6/8. Codes for k up to 31 are sampled (extremes, RC-palindromes, perturbations) and judged by the specification as 32-digit words.",
   "ref": "DESIGN.md 5.1, 6 C02",
